@@ -273,3 +273,57 @@ crate::harnesses! {
     #[cfg_attr(kani, kani::unwind(9))]
     fn parse_u32_6digits() { digits_body!(u32, 6, false) }
 }
+
+#[cfg(feature = "power-of-two")]
+pub mod pow2 {
+    use super::*;
+    crate::harnesses! {
+        /// i8 radix 16, complete parser: all byte strings of length <= 4 (overflow after two digits; signed/unsigned digit budget).
+        /// @prop C04 C10
+        /// @feat pow2 radix
+        /// @bound input length <= 4 bytes (all byte values)
+        /// @fn lexical-parse-integer::algorithm::algorithm_complete[i8, radix 16]
+        /// @fn lexical-util::num::Integer::overflow_digits
+        /// @timeout 1500
+        #[cfg_attr(kani, kani::unwind(7))]
+        fn parse_i8_r16_complete_len4() { complete_body!(i8, 4, 16, 0, false) }
+
+        /// i8 radix 16, partial parser: all byte strings of length <= 4.
+        /// @prop C04 C10 C11
+        /// @feat pow2 radix
+        /// @bound input length <= 4 bytes (all byte values)
+        /// @fn lexical-parse-integer::algorithm::algorithm_partial[i8, radix 16]
+        /// @timeout 1500
+        #[cfg_attr(kani, kani::unwind(7))]
+        fn parse_i8_r16_partial_len4() { partial_body!(i8, 4, 16, 0, false) }
+
+        /// u8 radix 16, complete parser: all byte strings of length <= 4.
+        /// @prop C04 C10
+        /// @feat pow2 radix
+        /// @bound input length <= 4 bytes (all byte values)
+        /// @fn lexical-parse-integer::algorithm::algorithm_complete[u8, radix 16]
+        /// @timeout 1500
+        #[cfg_attr(kani, kani::unwind(7))]
+        fn parse_u8_r16_complete_len4() { complete_body!(u8, 4, 16, 0, false) }
+
+        /// i8 radix 2, complete parser: strings of length <= 10 over {0 1 + - 2} (overflow after 7/8 digits).
+        /// @prop C04 C10
+        /// @tier thorough
+        /// @feat pow2 radix
+        /// @bound input length <= 10 over the number alphabet
+        /// @fn lexical-parse-integer::algorithm::algorithm_complete[i8, radix 2]
+        /// @timeout 3000
+        #[cfg_attr(kani, kani::unwind(13))]
+        fn parse_i8_r2_complete_alpha_len10() { complete_body!(i8, 10, 2, 1, false) }
+
+        /// i16 radix 16, complete parser: number-alphabet strings of length <= 6.
+        /// @prop C04 C10
+        /// @tier thorough
+        /// @feat pow2 radix
+        /// @bound input length <= 6 over the number alphabet
+        /// @fn lexical-parse-integer::algorithm::algorithm_complete[i16, radix 16]
+        /// @timeout 3000
+        #[cfg_attr(kani, kani::unwind(9))]
+        fn parse_i16_r16_complete_alpha_len6() { complete_body!(i16, 6, 16, 1, false) }
+    }
+}
